@@ -414,6 +414,8 @@ DISPATCH = {'derive': check_derive, 'numeric': check_numeric}
 
 
 def replay(ctx, case):
+    if 'probe' in case and 'kind' not in case:          # replay file written for a reproducing probe
+        case = [c for fid, c, _b, _w in _probe_cases() if fid == case['probe']][0]
     DISPATCH[case['kind']](ctx, case)
 
 
@@ -468,7 +470,12 @@ def derive_strategy(ctx):
         case = {'kind': 'derive', 'root': draw(_root_strategy()), 'network': net, 'witness_type': wt, 'multisig': ms}
         n = draw(st.one_of(st.integers(1, 4), st.integers(2, 5), st.integers(0, maxdepth)))
         mode = draw(st.sampled_from(['nosplit', 'commute', 'commute', 'refuse']))
-        j = draw(st.integers(0, n)) if mode != 'nosplit' else None
+        if mode == 'nosplit':
+            j = None
+        elif n >= 2:
+            j = draw(st.one_of(st.integers(1, n - 1), st.integers(1, n - 1), st.integers(0, n)))
+        else:
+            j = draw(st.integers(0, n))
         path = []
         for i in range(n):
             idx = draw(_index_strategy())
@@ -648,5 +655,5 @@ def run(ctx):
             ctx.klass('seed.ascii_hex_bytes')
             ctx.guard(lambda c: replay(ctx, c), case)
 
-    ctx.run_given('numeric', numeric_strategy(ctx), prop_numeric(ctx), ctx.scale(40, 600))
-    ctx.run_given('derive', derive_strategy(ctx), prop_derive(ctx), ctx.scale(150, 2400))
+    ctx.run_given('numeric', numeric_strategy(ctx), prop_numeric(ctx), ctx.scale(60, 600))
+    ctx.run_given('derive', derive_strategy(ctx), prop_derive(ctx), ctx.scale(250, 2400))
